@@ -113,6 +113,30 @@ class TH:
     def locals_of(self, obj):
         return self.hw.rec.locals_of(obj)
 
+    def log_records(self, min_level=None):
+        """Hardware log records registered by the elaborated library code: [(record, z3 Bool trigger)].
+        Only records whose trigger is a Signal of the netlist are returned with a trigger term."""
+        import logging
+        from amaranth.hdl import _ast as A
+        from transactron.utils.logging import LogKey
+
+        try:
+            recs = self.top.manager.get_dependency(LogKey())
+        except KeyError:
+            recs = []
+        out = []
+        for r in recs:
+            if min_level is not None and r.level < min_level:
+                continue
+            trig = None
+            t = r.trigger
+            if isinstance(t, A.Operator) and t.operator in ("b", "r|") and len(t.operands) == 1:
+                t = t.operands[0]
+            if isinstance(t, A.Signal) and self.hw.ts.has(t):
+                trig = self.hw.sig(t) != 0
+            out.append((r, trig))
+        return out
+
     def sig(self, v):
         return self.hw.sig(v)
 
